@@ -180,54 +180,7 @@ func c02(r *core.Run) {
 	c02Drain(r, a)
 
 	// ---- Q3 --------------------------------------------------------------
-	for _, ac := range core.FieldAccesses(root, func(f core.Field) bool { return f == a.WorkQueue }) {
-		fn := core.FuncName(ac.Fn)
-		switch ac.Kind {
-		case "store":
-			st := ac.Instr.(*ssa.Store)
-			shape := storeShape(st.Val, a)
-			ok := false
-			why := ""
-			switch {
-			case shape == "builtin:append":
-				call := st.Val.(*ssa.Call)
-				lf, lok := core.LoadedField(call.Call.Args[0])
-				ok = p.Within(ac.Fn, a.Enqueue) && lok && lf == a.WorkQueue
-				why = "push must be append(load of itself, item) in enqueue"
-			case shape == a.WorkQueue.Name+"[1:]":
-				ok = p.Within(ac.Fn, a.Worker)
-				why = "drop-head only in the worker loop"
-			case shape == a.WorkBuf.Name+"[:0]":
-				if p.Within(ac.Fn, a.Serve) {
-					ok = true
-				} else if p.Within(ac.Fn, a.Worker) {
-					// must be on the len(workqueue)==1 edge
-					for _, ed := range dominatingEdges(st) {
-						if describeCond(ed) == "len "+a.WorkQueue.String()+"==1" {
-							ok = true
-						}
-					}
-					why = "reset to the empty buffer prefix is only a drop-head when exactly one item is queued"
-				}
-			case shape == "nil":
-				ok = p.Within(ac.Fn, a.Close)
-				why = "nil (closing) only in closeFn"
-			default:
-				why = "unexpected value shape"
-			}
-			r.Check(ok, "Q3", fn, "store("+a.WorkQueue.String()+")="+shape, p.InstrPos(st), "store is one of the FIFO shapes in its designated function", "work queue store breaks the FIFO discipline: "+why)
-		case "load":
-			ld := ac.Instr.(ssa.Value)
-			if refs := ld.Referrers(); refs != nil {
-				for _, rf := range *refs {
-					if ia, ok := rf.(*ssa.IndexAddr); ok {
-						i, isC := core.ConstInt(ia.Index)
-						r.Check(isC && i == 0, "Q3", fn, "element-read("+a.WorkQueue.String()+")", p.InstrPos(ia), "only the head element is read", "an element other than the head is taken from the work queue")
-					}
-				}
-			}
-		}
-	}
+	c02WorkQueueShape(r, "Q3", a, root)
 
 	// ---- N1 --------------------------------------------------------------
 	{
@@ -733,4 +686,59 @@ func naturalLoop(h *ssa.BasicBlock) map[*ssa.BasicBlock]bool {
 		st = append(st, x.Preds...)
 	}
 	return in
+}
+
+// c02WorkQueueShape: the FIFO shape rule of the service work queue (C02.Q3;
+// C04 shares it: an item dropped from the queue is a request never answered).
+func c02WorkQueueShape(r *core.Run, rule string, a *svcAnchors, root []*ssa.Function) {
+	p := r.P
+	for _, ac := range core.FieldAccesses(root, func(f core.Field) bool { return f == a.WorkQueue }) {
+		fn := core.FuncName(ac.Fn)
+		switch ac.Kind {
+		case "store":
+			st := ac.Instr.(*ssa.Store)
+			shape := storeShape(st.Val, a)
+			ok := false
+			why := ""
+			switch {
+			case shape == "builtin:append":
+				call := st.Val.(*ssa.Call)
+				lf, lok := core.LoadedField(call.Call.Args[0])
+				ok = p.Within(ac.Fn, a.Enqueue) && lok && lf == a.WorkQueue
+				why = "push must be append(load of itself, item) in enqueue"
+			case shape == a.WorkQueue.Name+"[1:]":
+				ok = p.Within(ac.Fn, a.Worker)
+				why = "drop-head only in the worker loop"
+			case shape == a.WorkBuf.Name+"[:0]":
+				if p.Within(ac.Fn, a.Serve) {
+					ok = true
+				} else if p.Within(ac.Fn, a.Worker) {
+					// must be on the len(workqueue)==1 edge
+					for _, ed := range dominatingEdges(st) {
+						if describeCond(ed) == "len "+a.WorkQueue.String()+"==1" {
+							ok = true
+						}
+					}
+					why = "reset to the empty buffer prefix is only a drop-head when exactly one item is queued"
+				}
+			case shape == "nil":
+				ok = p.Within(ac.Fn, a.Close)
+				why = "nil (closing) only in closeFn"
+			default:
+				why = "unexpected value shape"
+			}
+			r.Check(ok, rule, fn, "store("+a.WorkQueue.String()+")="+shape, p.InstrPos(st), "store is one of the FIFO shapes in its designated function", "work queue store breaks the FIFO discipline: "+why)
+		case "load":
+			ld := ac.Instr.(ssa.Value)
+			if refs := ld.Referrers(); refs != nil {
+				for _, rf := range *refs {
+					if ia, ok := rf.(*ssa.IndexAddr); ok {
+						i, isC := core.ConstInt(ia.Index)
+						r.Check(isC && i == 0, rule, fn, "element-read("+a.WorkQueue.String()+")", p.InstrPos(ia), "only the head element is read", "an element other than the head is taken from the work queue")
+					}
+				}
+			}
+		}
+	}
+
 }
